@@ -56,7 +56,7 @@ add("C17", "exhaustive enumeration of (item kind x package depth x referencing p
     "All 3 item kinds x 3 target names (ordinary / like a built-in) x 3 package depths x 4 positions x 4 (thorough 7) nesting contexts x 2-3 written forms x 2 layouts (target and referrers one token per line) x 3 (thorough 5) histories of a five-file project (target, suffix-named sibling, same-named item in another package, two referrers); get_qualified_name / get_name of every symbol of every file and Aidl::get_key are compared with the statement.",
     "trusted: document model, reference resolution rule; files whose traversal differs from the reference are skipped (C15)", "DESIGN.md section 4, C17")
 add("C18", "exhaustive enumeration of (construct x situation x doc shape x style x EOL) against an expected documentation string built from the doc model",
-    "Every documentable construct (20 instances over three host documents, annotated and plain) x 11 situations x 326 doc shapes (plus six long shapes of 0.6-5 KB in six situations) (quick: all shapes for the plain doc-comment situation, 6 representatives for the others; thorough: all for all) x 4 rendering styles x LF/CRLF; the doc field of every documentable construct of the returned tree is compared with the expectation (None wherever the comment does not directly precede).",
+    "Every documentable construct (20 instances over three host documents, annotated and plain) x 11 situations x 242 doc shapes incl. tags after a blank line and tag clauses continued on further lines (plus eight long or punctuation-rich shapes in six situations) (quick: all shapes for the plain doc-comment situation, 7 representatives for the others; thorough: all for all) x 4 rendering styles x LF/CRLF; the doc field of every documentable construct of the returned tree is compared with the expectation (None wherever the comment does not directly precede).",
     "trusted: doc model / renderer (model/docs.rs); statement's restrictions on comment content are the space's", "DESIGN.md section 4, C18")
 add("C19", "exhaustive enumeration of trees over the optional-field presence product and all resolved kinds, RON round trip as oracle",
     "Every parse-stage and validated tree of the C02 document space, of the full presence product of optional fields (with empty / multi-paragraph / non-ASCII / CRLF documentation), of a multi-file project reaching every TypeKind and (thorough) of the 5 952 C05 configurations (both observed files) is serialised with ron and read back; equality with the original is required.",
